@@ -207,7 +207,7 @@ def main(argv=None):
             print("ANALYSIS-ERROR property=%s reason=replay file unreadable: %s" % (prop, e))
             return 2
 
-    replay_dir = os.path.join(VERIF, "evidence", "replay")
+    replay_dir = os.path.join(VERIF, "evidence", "replay") if not args.repo else os.path.join(facts.CACHE, "replay-scratch")
     os.makedirs(replay_dir, exist_ok=True)
     # remove stale replay files of this property
     for f in os.listdir(replay_dir):
